@@ -160,7 +160,31 @@ func exec(plAny any, sched *simrt.Tape) *sim.Outcome {
 	var recs []*opRec
 	finalCheck := false
 	finalInstalled := time.Duration(-1)
+	// inCall[c]: client task c is inside a call into vouch.  Evaluated by the
+	// controller at quiescent points only (all tasks parked).
+	inCall := map[int]*opRec{}
+	clientOf := func(holder string) int {
+		i := strings.Index(holder, "@client")
+		if i < 0 {
+			return -1
+		}
+		n, j := 0, i+len("@client")
+		for ; j < len(holder) && holder[j] >= '0' && holder[j] <= '9'; j++ {
+			n = n*10 + int(holder[j]-'0')
+		}
+		if j == i+len("@client") {
+			return -1
+		}
+		return n
+	}
+	lastOp := map[int]*opRec{}
 	inv := func() *simrt.Violation {
+		for _, h := range simrt.Current().HeldLocks() {
+			if c := clientOf(h); c >= 0 && inCall[c] == nil && lastOp[c] != nil {
+				r := lastOp[c]
+				return Viol("C12/leaked-lock", "client %d has returned from %s(val %d) (error: %v) and is not inside any call, yet still owns %s", c, r.Kind, r.Val, r.err, h)
+			}
+		}
 		if !finalCheck {
 			return nil
 		}
@@ -180,7 +204,7 @@ func exec(plAny any, sched *simrt.Tape) *sim.Outcome {
 		}
 		do := func(r *opRec) {
 			v := w.Vals[r.Val]
-			simrt.Crit(func() { r.callT, r.callStep = simrt.Now(), simrt.Step() })
+			simrt.Crit(func() { r.callT, r.callStep = simrt.Now(), simrt.Step(); inCall[r.client] = r })
 			switch r.Kind {
 			case "lookup":
 				r.got, r.err = w.Svc.ProposerConfig(svcCtx, v.Acc, v.PubKey)
@@ -207,6 +231,7 @@ func exec(plAny any, sched *simrt.Tape) *sim.Outcome {
 			case "prepare":
 				r.err = w.Preparer.UpdatePreparations(svcCtx)
 			}
+			simrt.Crit(func() { lastOp[r.client] = r; delete(inCall, r.client) })
 			simrt.Yield("c12/opret")
 			simrt.Crit(func() { r.retT, r.retStep, r.returned = simrt.Now(), simrt.Step(), true })
 		}
@@ -268,10 +293,10 @@ func exec(plAny any, sched *simrt.Tape) *sim.Outcome {
 				if pl.NoAuctions && k != "lookup" {
 					continue
 				}
-				r := &opRec{op: op{Kind: k, Val: i}, client: 9, final: true}
+				r := &opRec{op: op{Kind: k, Val: i}, client: 10 + len(recs), final: true}
 				recs = append(recs, r)
 				total++
-				simrt.Go("final-"+k, func() {
+				simrt.Go(fmt.Sprintf("client%d", r.client), func() {
 					do(r)
 					simrt.Crit(func() { done++ })
 				})
